@@ -26,7 +26,17 @@ L3 == {Mul(a, b) : a \in S2, b \in RandomSubset(6, Sums)}
       \cup {Pow(a, n) : a \in RandomSubset(IF Thorough THEN 60 ELSE 25, L2), n \in {2, -1}}
       \cup {TOp("mul", <<a, b, c>>) : a \in RandomSubset(5, Sums), b \in RandomSubset(5, Sums), c \in RandomSubset(4, Sums)}
       \cup {TOp("sin", <<Mul(a, b)>>) : a \in RandomSubset(3, Sums), b \in RandomSubset(3, Sums)}
-Recipes == Sums \cup L2 \cup L3
+\* every power of a sum again in the contexts in which expand() meets it with a pending outer
+\* coefficient: as an addend with a coefficient, as a difference of two powers, as a factor
+Cs == {TInt(-1), TInt(2), TInt(-3), TRat(2, 3), TI}
+PowN == {Pow(s, n) : s \in Sums, n \in {2, 3, 4}}
+NCtx == IF Thorough THEN 900 ELSE 260
+Contexts == {Add(a, Mul(c, p)) : a \in {x, TInt(1), Pow(x, 3)}, c \in Cs, p \in RandomSubset(NCtx \div 4, PowN)}
+            \cup {TOp("sub", <<p, q>>) : p \in RandomSubset(18, PowN), q \in RandomSubset(12, PowN)}
+            \cup {Mul(c, p) : c \in Cs, p \in RandomSubset(NCtx \div 8, PowN)}
+            \cup {TOp("add", <<Mul(c, p), Mul(d, q), y>>) : c \in {TInt(2), TRat(-1, 2)}, d \in {TInt(-1), TI},
+                     p \in RandomSubset(8, PowN), q \in RandomSubset(6, PowN)}
+Recipes == Sums \cup L2 \cup L3 \cup Contexts
 Single == {[op |-> "ev", chk |-> "expand", envs |-> "arith", ts |-> <<Ex(e), Ex(Ex(e))>>] : e \in Recipes}
 
 \* pairs equal as polynomials: reordered factors / terms and textbook identities
